@@ -11,7 +11,8 @@ def units(tier):
     from . import C04
     return (contract_units(SIDECARS, KEYS, tier) + bv_units(SIDECARS, KEYS[0], (0,), tier)
             + diff_units(SIDECARS, KEYS, tier)
-            + [u for u in C04.protocol_units(tier) if "received" in u[4] or "execute" in u[4]])
+            + [u for u in C04.protocol_units(tier) if "received" in u[4] or "execute" in u[4]]
+            + C04.binding_units(tier))
 
 
 replay = replay_protocol
